@@ -250,6 +250,13 @@ func (m *monitor) hasReaderOther(e, g int) bool {
 	return false
 }
 
+func (m *monitor) isWriter(e, g int) bool {
+	m.mu.Lock()
+	defer m.mu.Unlock()
+	w, ok := m.writer[e]
+	return ok && w == g
+}
+
 func (m *monitor) isReader(e, g int) bool {
 	m.mu.Lock()
 	defer m.mu.Unlock()
@@ -304,7 +311,7 @@ func blockedSet(mon *monitor, outstanding map[int]op) map[int]bool {
 		}
 	}
 	for g, o := range outstanding {
-		if o.Kind != opLock {
+		if o.Kind != opLock || mon.isWriter(o.Ents[0], g) { // (own grant registered: return event on the way)
 			continue
 		}
 		if e := o.Ents[0]; mon.hasHolderOther(e, g) || mayHold[e] {
